@@ -575,7 +575,7 @@ def shrink_enum(info, sc, i):
             # drop conversions that do not matter, greedily, a bounded number of times
             cur = small['ops']
             for _ in range(12):
-                if len(cur) <= 2:
+                if len(cur) <= 1:
                     break
                 half = cur[len(cur) // 2:-1] + [cur[-1]]
                 rr = run_forked([dict(sc, ops=half)], 1)[0].get('ok')
